@@ -50,9 +50,9 @@ silent(["C01", "C10"], B, "                line_mapping.offset_to_line[len(bytes
        "                bytes_.append(\n                    dis.opmap[instruction.name] if i == 0 else dis.EXTENDED_ARG\n                )\n                bytes_.append((arg_value >> (8 * i)) & 0xFF)\n            for o in range(offset, len(bytes_), 2):\n                line_mapping.offset_to_line[o] = instruction.line_number\n", "another way of keying every unit")
 # ---- C14
 fire("C14", I, "        yield self\n        for code_data in self:", "        for code_data in self:")
-fire("C14", I, "                    isinstance(arg, Constant)\n                    and isinstance(arg.constant, CodeData)\n                    and arg.constant not in seen",
-     "                    isinstance(arg, Constant)\n                    and arg.constant not in seen")
-fire("C14", I, "                    and arg.constant not in seen\n", "", "the original defect: one yield per loading instruction")
+fire("C14", I, "                    isinstance(arg, Constant)\n                    and isinstance(arg.constant, CodeData)\n                    and arg not in seen",
+     "                    isinstance(arg, Constant)\n                    and arg not in seen")
+fire("C14", I, "                    and arg not in seen\n", "", "the original defect: one yield per loading instruction")
 fire("C14", I, "        for additional_arg in self._additional_args:", "        for additional_arg in ():", "the original defect")
 # ---- C09
 fire("C09", B, "        wrong_position = (\n            self._index_to_order[index] != index or index in self._duplicates\n        )", "        wrong_position = True")
@@ -232,3 +232,9 @@ silent(["C10"], L, "        if is_linetable:\n            expand_line()\n       
 fire("C11", A, "    if args.var_positional is not None:\n        flags_data |= {\"VARARGS\"}", "    if args.var_positional:\n        flags_data |= {\"VARARGS\"}", "the original defect: '' is a name (R11.T)")
 fire("C10", L, "                if is_linetable and line_offset is not None:\n                    line_offset = 0", "                if is_linetable:\n                    line_offset = 0", "the original defect: no-line marker lost in continuation entries (R10.3)")
 fire("C10", L, "            # A range without a line is continued without a line, not with a 0\n            and prev_item.line_offset is not None\n", "", "the original defect: (n, 0) merged into a no-line entry (R10.1)")
+fire("C14", I, "                    and arg not in seen\n                ):\n                    seen.add(arg)", "                    and arg.constant not in seen\n                ):\n                    seen.add(arg.constant)", "the once-only set keyed by value (R14.4)")
+M.append(dict(kind="fire", pid="C11", file=B, old="            unit_line = line_mapping.offset_to_line.pop(i, instruction.line_number)\n", new="            line_mapping.offset_to_line.pop(i, None)\n            unit_line = instruction.line_number\n", why="later units' lines dropped silently (R11.L)"))
+fire("C12", "code_data/_constants.py", "    if isinstance(value, tuple):\n        return tuple(map(from_constant, value))\n    return value", "    return value", "the argument's own tuples handed to CodeType (R12.8)")
+fire("C16", CLI, "        code = compile(file.read_bytes(), str(file), \"exec\")", "        code = compile(file.read_text(), str(file), \"exec\")", "the original defect: file decoded before compiling (R16.6)")
+fire("C07", J, "        return Name(**{**value, \"name\": string_from_json(value[\"name\"])})", "        return Name(**value)", "the original defect: tagged name stored as a dict (R07.2)")
+fire("C08", "code_data/_constants.py", "        return frozenset(Counter(map(constant_key, value)).items())", "        return frozenset(map(constant_key, value))", "the original defect: multiplicity of equal keys lost (R08.4)")
